@@ -128,6 +128,18 @@ fn viol(class: &str, msg: String) -> Violation {
     Violation { class: class.to_string(), msg, op_index: 0 }
 }
 
+/// Whether the command-line configuration has a termination argument (the rule of
+/// `Knobs::terminates` for the library runs): the no-learning resolver enumerates
+/// chronologically; with learning, either restarts are off or the learned-clause database is
+/// not kept tiny.
+fn terminates(args: &[String]) -> bool {
+    let value_of = |flag: &str| args.iter().position(|a| a == flag).and_then(|i| args.get(i + 1)).and_then(|v| v.parse::<i64>().ok());
+    let no_restarts = args.iter().any(|a| a == "--no-restarts");
+    let frequent_restarts = value_of("--restart-base-interval").is_some_and(|b| b <= 10);
+    let tiny_database = value_of("--learning-max-num-clauses").is_some_and(|n| n < 100);
+    no_restarts || !(frequent_restarts && tiny_database)
+}
+
 fn crash_class(r: &RunResult) -> Option<Violation> {
     if r.timed_out {
         return Some(viol("CLI:no-answer-within-time-limit", "the solver did not terminate within the per-run CPU-time limit (no time limit was given to it)".to_string()));
@@ -708,13 +720,13 @@ impl CliCase {
     }
 
     fn run_inner(&self, stats: &mut Stats) -> Result<(), Violation> {
-        let r = run_binary(self.ext(), &self.text, &self.args, self.proof, 0, 6);
+        let r = run_binary(self.ext(), &self.text, &self.args, self.proof, 0, 12);
         stats.solves += 1;
         // the number of search decisions makes a run non-trivial; -s is not always on, so count
         // the printed lines instead (>= 2: a verdict and a model / several solutions)
         stats.decisions = r.stdout.lines().count() as u64;
         if self.twin {
-            let r2 = run_binary(self.ext(), &self.text, &self.args, self.proof, 1 + (fnv(self.text.as_bytes()) % 1000), 6);
+            let r2 = run_binary(self.ext(), &self.text, &self.args, self.proof, 1 + (fnv(self.text.as_bytes()) % 1000), 12);
             stats.solves += 1;
             if r.timed_out || r2.timed_out {
                 // an execution cut off by the harness's own wall-clock limit has a truncated
@@ -735,6 +747,12 @@ impl CliCase {
                 return Err(viol("H-TWIN:literal-definitions-differ", "two executions of the same command line wrote different literal definition files".to_string()));
             }
             // a crash is not a reproducibility violation as long as it reproduces
+            return Ok(());
+        }
+        if r.timed_out && !terminates(&self.args) {
+            // no termination argument for this configuration (restarts every few conflicts
+            // with a learned-clause database that is emptied): slow or no progress is legitimate,
+            // the run is inconclusive
             return Ok(());
         }
         if let Some(v) = crash_class(&r) {
